@@ -433,19 +433,20 @@ def St.remove (s : St) (ps : List Path) (sel : RemoveSel) (force : Bool) : St ×
     (`is_same_file`; a file the user put in its place is left alone); a target that is missing from the
     workspace is restored from the cache as well (`all_content_digests[xe]` panics when nothing was
     ever committed for it) -/
-def St.rematerialise (s : St) (ts : List Ent) : St × Out :=
-  forEach (fun (s : St) (e : Ent) =>
-    match s.recs e with
-    | some r =>
-      match s.ws r.path, r.cur with
-      | some (.sym _), some d => s.recheckFromCache r.path (addrOf r.path d) .copy
-      | some (.file _ _ _ (some a)), some d =>
-        if r.method = .hardlink ∧ a = addrOf r.path d then s.recheckFromCache r.path (addrOf r.path d) .copy
-        else (s, .ok)
-      | none, some d => s.recheckFromCache r.path (addrOf r.path d) .copy
-      | none, none => (s, .panic)
-      | _, _ => (s, .ok)
-    | none => (s, .ok)) s ts
+def St.rematOne (s : St) (e : Ent) : St × Out :=
+  match s.recs e with
+  | some r =>
+    match s.ws r.path, r.cur with
+    | some (.sym _), some d => s.recheckFromCache r.path (addrOf r.path d) .copy
+    | some (.file _ _ _ (some a)), some d =>
+      if r.method = .hardlink ∧ a = addrOf r.path d then s.recheckFromCache r.path (addrOf r.path d) .copy
+      else (s, .ok)
+    | none, some d => s.recheckFromCache r.path (addrOf r.path d) .copy
+    | none, none => (s, .panic)
+    | _, _ => (s, .ok)
+  | none => (s, .ok)
+
+def St.rematerialise (s : St) (ts : List Ent) : St × Out := forEach St.rematOne s ts
 
 /-- the five records of the target entities are removed -/
 def St.dropRecs (s : St) (ts : List Ent) : St := { s with recs := fun e => if e ∈ ts then none else s.recs e }
